@@ -135,7 +135,11 @@ class Context:
             "wall_s": round(wall, 2),
             "violations": len(violations),
         }
-        with open(os.path.join(HERE, "evidence", self.prop + ".json"), "w") as f:
+        evdir = os.path.join(HERE, "evidence")
+        if getattr(self, "overlay", None):
+            evdir = os.path.join(HERE, "evidence", "selftest")  # self-test runs never overwrite the registered evidence
+            os.makedirs(evdir, exist_ok=True)
+        with open(os.path.join(evdir, self.prop + ".json"), "w") as f:
             json.dump(ev, f, indent=1)
         # output
         for o, k in known_hit:
@@ -145,7 +149,7 @@ class Context:
                 print("ANALYSIS-BROKEN property=%s %s" % (self.prop, b))
         code = 0
         for idx, o in enumerate(violations):
-            path = os.path.join(HERE, "evidence", "reports", "%s-%d.json" % (self.prop, idx))
+            path = os.path.join(HERE, "evidence", "reports", "%s%s-%d.json" % ("selftest-" if getattr(self, "overlay", None) else "", self.prop, idx))
             rep = dict(o)
             rep["property"] = self.prop
             rep["replay"] = "./check %s --replay %s" % (self.prop, path)
